@@ -35,7 +35,7 @@ func menu(w *chain.World) []chain.Action {
 }
 
 func run(c *vf.Ctx) {
-	c.Set("rule", "explicit-state DFS (union alphabet, leaf positions in the key, reverts); at every distinct state: door 1 (ValidateTransactionElements) for EVERY tracked element (live, spent, resolved, chain index) unmodified and under every single mutation from a reflection walk (each field +-1 / byte flips, leaf index +-1 / another element's index, each proof hash flipped, proof shortened / lengthened, another element's proof, outdated proof, element of a reverted branch, fabricated element); door 4 (parents created earlier in the same block: every created-element id of any kind x the contents of every created siacoin / siafund output); doors 2 and 3 (ValidateV2Transaction with re-balanced re-signed transactions; v1 block supplement) for one canonical element per kind under every mutation. Oracle: membership(mutated)=false, membership(original)=live per reference ledger")
+	c.Set("rule", "explicit-state DFS (union alphabet, leaf positions in the key, reverts); at every distinct state: door 1 (ValidateTransactionElements) for EVERY tracked element (live, spent, resolved, chain index) unmodified and under every single mutation from a reflection walk (each field +-1 / byte flips, leaf index +-1 / another element's index, each proof hash flipped, proof shortened / lengthened, another element's proof, outdated proof, element of a reverted branch, fabricated element); door 4 (parents created earlier in the same block: every created-element id of any kind x the contents of every created siacoin / siafund output); doors 2 and 3 (ValidateV2Transaction with re-balanced re-signed transactions; v1 block supplement) for one canonical element per kind under every mutation. door 5 (transaction-combinatorics model: in every transaction naming two elements of one kind, element j re-presented under the id - and optionally the position and proof - of its sibling i). Oracle: membership(mutated)=false, membership(original)=live per reference ledger")
 	nets := []string{"mixed", "v1-eras", "v2-only"}
 	if !c.Quick() {
 		nets = append(nets, "v2-eph5")
@@ -56,7 +56,28 @@ func run(c *vf.Ctx) {
 		x.Run()
 		x.Report(n + "/")
 	}
-	c.RequireFeature("door1_original_live_accepted", "door1_original_dead_rejected", "door1_mutant_rejected", "door2_mutant_rejected", "door2_original_accepted",
+	// door 5: multi-element transactions (transaction-combinatorics model)
+	for _, n := range []string{"v2-only", "mixed"} {
+		if c.Expired() {
+			break
+		}
+		sp := chain.Spec(n)
+		mm := &chain.Model{Name: "merged", Spec: sp, Menu: chain.MergedMenu, Opt: opt, H: 8, D: 2, K: 1, R: 0}
+		if !c.Quick() {
+			mm.Menu = chain.MergedMenu3
+		}
+		if sp.Name == "mixed" {
+			mm.SkipStart = 3
+			mm.H += 3
+		}
+		mm.OnTransition = func(x *chain.Explorer, prev, w *chain.World, path []string) {
+			siblingDoor(c, x, prev, w.Hist[len(w.Hist)-1].B, path)
+		}
+		xm := chain.NewExplorer(c, mm, "C04")
+		xm.Run()
+		xm.Report(n + "/merged/")
+	}
+	c.RequireFeature("door5_mutant_rejected", "door5:siacoin parent", "door5:resolved contract", "door5:storage proof chain index", "door5:revised contract", "door1_original_live_accepted", "door1_original_dead_rejected", "door1_mutant_rejected", "door2_mutant_rejected", "door2_original_accepted",
 		"door3_mutant_rejected", "door3_original_accepted", "door4_mutant_rejected", "door4_original_accepted", "door2b_mutant_rejected", "door2b_original_accepted", "reverted_branch_rejected", "outdated_proof_rejected", "kind:siacoin", "kind:siafund", "kind:filecontract", "kind:v2filecontract", "kind:chainindex")
 	c.Sample(map[string]any{"door": 1, "element": "siacoin", "mutation": ".SiacoinOutput.Value.Lo+1", "expected": "rejected"})
 	c.Sample(map[string]any{"door": 3, "element": "filecontract (supplement)", "mutation": ".FileContract.ValidProofOutputs[1].Value.Lo+1", "expected": "rejected"})
@@ -507,7 +528,7 @@ func replay(c *vf.Ctx, raw json.RawMessage) {
 	var tc chain.TraceCase
 	json.Unmarshal(raw, &tc)
 	tr := tc.Trace
-	for len(tr) > 0 && strings.HasPrefix(tr[len(tr)-1], "mutation:") {
+	for len(tr) > 0 && (strings.HasPrefix(tr[len(tr)-1], "mutation:") || strings.HasPrefix(tr[len(tr)-1], "attack:sibling:")) {
 		tr = tr[:len(tr)-1]
 	}
 	tc.Trace = tr
@@ -515,6 +536,16 @@ func replay(c *vf.Ctx, raw json.RawMessage) {
 	m := &chain.Model{Name: "union-leafkey", Spec: chain.Spec(tc.Network), Menu: menu, LeafKey: true}
 	x := chain.NewExplorer(c, m, "C04")
 	if w := chain.ReplayTraceWorld(c, raw2, func(string) func(w *chain.World) []chain.Action { return menu }, "C04", opt); w != nil {
+		if tc.Model == "merged" {
+			if len(w.Hist) > 1 {
+				a := w.Hist[len(w.Hist)-1]
+				prev := *w
+				prev.CS = a.PrevCS
+				prev.Times = w.Times[:len(w.Times)-1]
+				siblingDoor(c, x, &prev, a.B, tr)
+			}
+			return
+		}
 		doors(c, x, w, tr)
 	}
 }
